@@ -566,12 +566,28 @@ def _sym_index(x: SymInt) -> int:
     if z3.is_int_value(t):
         return t.as_long()
     for _ in range(65):
+        i = len(c.trace)
+        if i < len(c.prefix):
+            # replaying: the candidate value is part of the recorded decision (models are not
+            # reproducible between runs, the decision sequence must be)
+            v, d = c.prefix[i]
+            c.trace.append((v, d))
+            c.add(t == v if d else t != v)
+            if d:
+                return v
+            continue
         r, m = c.check()
         if r != "sat":
             raise Abort("index(): path infeasible/unknown")
         v = m.eval(t, model_completion=True).as_long()
-        if c.decide(t == v):
-            return v
+        rf, _ = c.check(t != v)
+        if rf == "unknown":
+            raise Abort("solver unknown at index()")
+        if rf == "sat":
+            c.pending.append(c.trace + [(v, False)])
+        c.trace.append((v, True))
+        c.add(t == v)
+        return v
     raise Abort("index() on symbolic int with more than 64 feasible values")
 
 
